@@ -88,7 +88,3 @@ Definition Ruint_dec_buffer_tight_stmt : Prop :=
   exists a, 0 <= a < 2 ^ (2 ^ 8) /\ ru_display_dec_buf (Z.to_nat (3 * 2 ^ 8 / 10 + 1)) a <> ru_display_dec a.
 Lemma ruint_dec_buffer_tight : Ruint_dec_buffer_tight_stmt.
 Proof. exists (2 ^ 256 - 1). split; [split; [vm_compute; discriminate|reflexivity]|]. vm_compute. discriminate. Qed.
-(* REMOVED-BELOW
-  exists a, 0 <= a < 2 ^ (2 ^ 8) /\ ru_display_dec_buf (Z.to_nat (3 * 2 ^ 8 / 10 + 1)) a <> ru_display_dec a.
-Proof. exists (2 ^ 256 - 1). split; [split; [vm_compute; discriminate|reflexivity]|]. vm_compute. discriminate. Qed.
-*)
